@@ -52,7 +52,9 @@ def run(ctx):
                                     type(ex).__name__, ex, nz, order), {"space": sp.key(), "nz": nz, "order": order})
                                 continue
                             phi_r = L.f.T.copy()                # [z, theta]
-                            for li, gr in enumerate(range(lay.starts[0], lay.ends[0])):
+                            # two sweeps over the local radii on the SAME object (the driver calls it for every radius twice per
+                            # time step): a call must not depend on earlier calls
+                            for li, gr in [(a_, b_) for _sweep in range(2) for a_, b_ in enumerate(range(lay.starts[0], lay.ends[0]))]:
                                 der = np.full_like(phi_r, np.nan)
                                 try:
                                     pg.parallel_gradient(phi_r, li, der)
